@@ -1,0 +1,47 @@
+//! C36 hook: the real axum application (`create_app`: PUT/GET `/pkarr/{key}`, DoH `/dns-query`)
+//! over an in-memory `ZoneStore` and the real `DnsHandler` (catalog + `NodeZoneHandler`),
+//! without binding any socket.  The harness drives the returned router in process
+//! (`tower::ServiceExt::oneshot`), adding the `ConnectInfo` extension the trace layer expects.
+use std::{net::Ipv4Addr, sync::Arc, time::Duration};
+
+use n0_error::Result;
+
+use super::c37::Store;
+use crate::{
+    dns::{DnsConfig, DnsHandler},
+    http::{RateLimitConfig, create_app},
+    metrics::Metrics,
+    state::AppState,
+    store::{Options, ZoneStore},
+};
+
+pub struct App {
+    /// the application router, exactly as `HttpServer::spawn` serves it (rate limit disabled)
+    pub router: axum::Router,
+    /// direct access to the same zone store
+    pub store: Store,
+}
+
+/// `origins`: the DNS origins served (as in `DnsConfig::origins`); `rr_a`: optional apex A record.
+pub fn app(origins: Vec<String>, default_soa: &str, rr_a: Option<Ipv4Addr>) -> Result<App> {
+    let metrics = Arc::new(Metrics::default());
+    let options = Options {
+        eviction: Duration::from_micros(u64::MAX),
+        eviction_interval: Duration::from_secs(3600),
+        ..Options::default()
+    };
+    let store = ZoneStore::verif_in_memory(options, metrics.clone())?;
+    let mut dns = DnsConfig::new(0, default_soa.to_string(), 900, origins);
+    dns.rr_a = rr_a;
+    let dns_handler = DnsHandler::new(store.clone(), &dns, metrics.clone())?;
+    let state = AppState {
+        store: store.clone(),
+        dns_handler,
+        metrics,
+    };
+    let router = create_app(state, &RateLimitConfig::Disabled);
+    Ok(App {
+        router,
+        store: Store { inner: store },
+    })
+}
